@@ -117,7 +117,8 @@ func (x *g) genSecurityGadgetService() {
 	}
 	x.s.Schemes = append(x.s.Schemes,
 		&spec.Scheme{Name: "gjwt", Kind: "jwt", Scopes: []string{"g:read", "g:write"}},
-		&spec.Scheme{Name: "gkey", Kind: "apikey"})
+		&spec.Scheme{Name: "gkey", Kind: "apikey"},
+		&spec.Scheme{Name: "gkey2", Kind: "apikey"})
 	str := func() *spec.Type { return &spec.Type{Kind: spec.String} }
 	list := &spec.Method{Name: "list",
 		Security: []*spec.Requirement{{Schemes: []string{"gjwt"}, Scopes: []string{"g:read"}}},
@@ -133,6 +134,15 @@ func (x *g) genSecurityGadgetService() {
 		Result: &spec.Attr{Type: str()},
 		HTTP: &spec.HTTP{Routes: []spec.Route{{Verb: "POST", Path: "/create"}},
 			Headers: []spec.Loc{{Attr: "key_gkey", Wire: "X-G-Key"}}}}
-	x.s.Services = append(x.s.Services, &spec.Service{Name: "secgadgets", BasePath: "/secgadgets", Methods: []*spec.Method{list, create}})
+	// two schemes of the SAME kind in one requirement: both callbacks must accept
+	pair := &spec.Method{Name: "pair",
+		Security: []*spec.Requirement{{Schemes: []string{"gkey", "gkey2"}}},
+		Payload: &spec.Attr{Type: &spec.Type{Kind: spec.Object, Attrs: []*spec.Attr{
+			{Name: "key_gkey", Type: str(), Sec: "apikey:gkey"}, {Name: "key_gkey2", Type: str(), Sec: "apikey:gkey2"}, {Name: "note", Type: str()}},
+			Required: []string{"key_gkey", "key_gkey2"}}},
+		Result: &spec.Attr{Type: str()},
+		HTTP: &spec.HTTP{Routes: []spec.Route{{Verb: "POST", Path: "/pair"}},
+			Headers: []spec.Loc{{Attr: "key_gkey", Wire: "X-G-Key"}}, Query: []spec.Loc{{Attr: "key_gkey2", Wire: "k2"}}}}
+	x.s.Services = append(x.s.Services, &spec.Service{Name: "secgadgets", BasePath: "/secgadgets", Methods: []*spec.Method{list, create, pair}})
 	x.s.AddFeature("security-gadget-service", "requirement-seen-scheme-then-new-scheme", "scheme-jwt", "scheme-apikey", "method-security")
 }
